@@ -315,3 +315,41 @@ func (g *G) NSTree(hasNS bool) *xdoc.Doc {
 	top.NS = bind[top.Prefix]
 	return d.Finish()
 }
+
+// DigitTree builds a document for identity-collision hunting: several levels of same-named siblings
+// with fan-out up to 12, so that distinct nodes have sibling-position chains whose decimal digits
+// concatenate alike ((1,11,1) vs (11,1,1) vs (1,1,11) vs (1,1,1,1)), plus repeated text/attribute values.
+func (g *G) DigitTree() *xdoc.Doc {
+	d := xdoc.NewDoc()
+	r := d.Root.AddElem("", "r", "")
+	name := func(level int) string { return []string{"p", "a", "b", "c"}[level%4] }
+	same := g.Chance(0.5) // all levels use one element name
+	var grow func(n *xdoc.Node, level int, wide bool)
+	grow = func(n *xdoc.Node, level int, wide bool) {
+		if level > 3 {
+			return
+		}
+		k := 2
+		if wide {
+			k = 11 + g.Intn(2)
+		}
+		for i := 1; i <= k; i++ {
+			nm := name(level)
+			if same {
+				nm = "a"
+			}
+			e := n.AddElem("", nm, "")
+			if i == 1 || i == 11 {
+				if g.Chance(0.5) {
+					e.AddAttr("", "id", "", "1")
+				}
+				// the first and the eleventh child are expanded: their chains differ only in where the "11" sits
+				grow(e, level+1, i == 1 && level < 2)
+			} else if i == 2 && g.Chance(0.5) {
+				e.AddText("1")
+			}
+		}
+	}
+	grow(r, 0, true)
+	return d.Finish()
+}
